@@ -84,10 +84,26 @@ fn grid(ctx: &Ctx, draws: u64) -> SubReport {
             }
         }
     }
+    // long vectors: lengths around 16 / 32 / 64 and 100 with offsets that leave overlaps of every
+    // size class (block-wise processing usually switches on at such lengths)
+    let small_cells = cells.len();
+    for n in &names {
+        if *n == "BOOLVECTOR.NOT" {
+            continue;
+        }
+        for l1 in [12usize, 16, 17, 31, 33, 64, 100] {
+            for l0 in [12usize, 16, 17, 31, 33, 64, 100] {
+                for o in [-70i32, -33, -17, -16, -8, -3, -1, 0, 1, 3, 8, 16, 17, 33, 70] {
+                    cells.push((n.to_string(), l1, l0, o));
+                }
+            }
+        }
+    }
     let n = cells.len() as u64;
     let mut rep = par_map(ctx, "length-offset-grid", n, |ci, rep| {
         let (name, l1, l0, o) = cells[ci as usize].clone();
         let mut r = det_runner(derive_seed(ctx.seed, &["C09", "grid"], ci, 0));
+        let draws = if (ci as usize) < small_cells { draws } else { (draws / 4).max(2) };
         for _ in 0..draws {
             let mut s = StateSpec::default();
             s.ints = vec![o, 5];
@@ -131,7 +147,7 @@ fn grid(ctx: &Ctx, draws: u64) -> SubReport {
         }
     });
     rep.exhaustive = true;
-    rep.notes.push(format!("{} cells: element-wise names x len(second) 0..8 x len(top) 0..8 x offsets -10..10 and 6 extreme offsets, {} random element draws per cell (the length x offset grid is complete, element values are sampled)", n, draws));
+    rep.notes.push(format!("{} cells: element-wise names x len(second) 0..8 x len(top) 0..8 x offsets -10..10 and 6 extreme offsets, {} random element draws per cell (the length x offset grid is complete, element values are sampled); plus lengths {{12,16,17,31,33,64,100}}^2 x 15 offsets in -70..70 with {} draws per cell", n, draws, (draws / 4).max(2)));
     rep
 }
 
@@ -171,9 +187,10 @@ pub fn run(ctx: &Ctx) -> PropReport {
     );
     rep.assumptions.push("size operands (ONES/ZEROS/SINE/FROMINT) are kept <= 4096 here; magnitudes are C15's subject".into());
     rep.assumptions.push("unspecified and therefore not value-compared: MEAN of an empty vector, ONES/ZEROS 0, SET without value, float aggregates at the f32 range boundary, SINE with non-finite/huge parameters".into());
-    rep.push(grid(ctx, ctx.tier.pick(3, 60)));
-    rep.push(run_sharded(ctx, "random", ctx.tier.pick(120_000, 5_000_000), random_strategy, |(n, s): &(String, StateSpec)| judge(n, s), |(n, s)| case_json(n, s)));
+    rep.push(grid(ctx, ctx.tier.pick(10, 60)));
+    rep.push(run_sharded(ctx, "random", ctx.tier.pick(400_000, 5_000_000), random_strategy, |(n, s): &(String, StateSpec)| judge(n, s), |(n, s)| case_json(n, s)));
     rep.extra.insert("instructions".into(), json!(names()));
+    rep.push(crate::props::incontext::run(ctx, ctx.tier.pick(40_000, 600_000)));
     rep
 }
 
